@@ -43,32 +43,38 @@ __CPROVER_ensures(self->expression == 127 && self->volume == __CPROVER_old(self-
 
 /* MIDIchannel::find_activenote (intrusive list lookup): ASSUMED - returns "not found" (NULL here) or one cell of the
  * environment; rule R7 rewrites the iterator to a cell pointer and is_end() to a NULL test */
-extern pl_cell_NoteInfo g_note_cell;
-pl_cell_NoteInfo *MIDIchannel_find_activenote(MIDIchannel *self, unsigned note)
-__CPROVER_requires(__CPROVER_same_object(self, g_midiChannels_storage))
-__CPROVER_assigns()
-__CPROVER_ensures(__CPROVER_return_value == NULL || __CPROVER_return_value == &g_note_cell);
-/* CBMC checks an index into a member array reached through a pointer only against the WHOLE object (here the channel
- * table), so noteAftertouch[note] with note >= 128 would pass its bounds check while overwriting sibling fields.  The
- * contract therefore states the frame at field level: apart from noteAftertouch[] and noteAfterTouchInUse every field
- * of every channel keeps its value (ghost copy g_table_before, typed equality generated from the extracted struct). */
-extern MIDIchannel g_table_before[ENV_N_MIDI_CHANNELS];
-static bool spec_table_same_but_aftertouch(void)
+extern pl_cell_NoteInfo g_note_cell; extern const OpnInstMeta g_cell_instrument; extern MIDIchannel g_chan_win[1];
+_Bool nondet_find_hit(void);
+static pl_cell_NoteInfo *MIDIchannel_find_activenote(MIDIchannel *self, unsigned note)   /* stub WITH A BODY (returned pointers must be concrete, DESIGN.md A.4) */
 {
-    bool ok = true;
-    for(size_t k = 0; k < ENV_N_MIDI_CHANNELS; k++)
-    {
-        MIDIchannel t = g_table_before[k];
-        for(size_t q = 0; q < 128; q++) t.noteAftertouch[q] = g_midiChannels_storage[k].noteAftertouch[q];
-        t.noteAfterTouchInUse = g_midiChannels_storage[k].noteAfterTouchInUse;
-        ok = ok && spec_MIDIchannel_eq(&g_midiChannels_storage[k], &t);
-    }
-    return ok;
+    __CPROVER_assert((__CPROVER_same_object(self, g_midiChannels_storage) && (size_t)__CPROVER_POINTER_OFFSET(self) < sizeof(g_midiChannels_storage)) || self == &g_chan_win[0],
+                     "CALLEE find_activenote is called on a channel OF the table");
+    (void)note;
+    if(!nondet_find_hit()) return NULL;
+    /* note-list invariant (assumed): a cell's instrument pointer is NULL or a valid instrument */
+    __CPROVER_assume(g_note_cell.value.ains == NULL || g_note_cell.value.ains == &g_cell_instrument);
+    return &g_note_cell;
 }
-void realTime_NoteAfterTouch(uint8_t channel, uint8_t note, uint8_t atVal) RT_REQUIRES
-__CPROVER_requires(spec_table_same_but_aftertouch())
-__CPROVER_assigns(g_midiChannels_storage, g_update_calls, g_other_calls, g_note_cell) RT_ENSURES
-__CPROVER_ensures(spec_table_same_but_aftertouch());
+/* CBMC checks an index into a member array reached through a pointer only against the WHOLE object, so
+ * noteAftertouch[note] with note >= 128 would pass its bounds check while overwriting sibling fields.  The contract
+ * therefore states the frame at field level: apart from noteAftertouch[] and noteAfterTouchInUse every field of the
+ * addressed channel keeps its value (ghost copy g_chan_before, typed equality generated from the extracted struct).
+ * The addressed channel is a one-element typed window (m_midiChannels = g_chan_win - folded channel): an access to any
+ * other channel is an out-of-bounds failure, and no symbolic table index remains in the query. */
+extern MIDIchannel g_chan_win[1]; extern MIDIchannel g_chan_before;
+#define SPEC_FOLD(c) ((size_t)(c) >= ENV_N_MIDI_CHANNELS ? (size_t)(c) % 16 : (size_t)(c))
+static bool spec_chan_same_but_aftertouch(void)
+{
+    MIDIchannel t = g_chan_before;
+    for(size_t q = 0; q < 128; q++) t.noteAftertouch[q] = g_chan_win[0].noteAftertouch[q];
+    t.noteAfterTouchInUse = g_chan_win[0].noteAfterTouchInUse;
+    return spec_MIDIchannel_eq(&g_chan_win[0], &t);
+}
+void realTime_NoteAfterTouch(uint8_t channel, uint8_t note, uint8_t atVal)
+__CPROVER_requires(g_play.m_midiChannels_size == ENV_N_MIDI_CHANNELS && g_play.m_midiChannels == g_chan_win - SPEC_FOLD(channel))
+__CPROVER_requires(spec_chan_same_but_aftertouch() && g_chan_win[0].volume <= 127 && g_chan_win[0].expression <= 127 && g_chan_win[0].brightness <= 127 && g_chan_win[0].patch <= 127)
+__CPROVER_assigns(g_chan_win, g_update_calls, g_other_calls, g_note_cell)
+__CPROVER_ensures(spec_chan_same_but_aftertouch());
 
 void realTime_Controller(uint8_t channel, uint8_t type, uint8_t value) RT_REQUIRES RT_FRAME RT_ENSURES;
 void realTime_PatchChange(uint8_t channel, uint8_t patch) RT_REQUIRES RT_FRAME RT_ENSURES;
